@@ -6,4 +6,4 @@ Import ListNotations.
 Lemma delivery_reaches_only_recipients cfg d acc m r st f :
   In (r, D_ok st f) (do_deliveries (handle_data cfg d acc m)) ->
   In r acc /\ spec_target d r = Some st.
-Proof. intros H. destruct (filed_where cfg d acc m r st f H) as (A & B & _). exact (conj A B). Qed.
+Proof. intros H. pose proof (filed_where cfg d acc m r st f H) as K. tauto. Qed.
